@@ -113,12 +113,12 @@ theorem two_pow_mul_cons_false (p t : Nat) : 2 ^ p * (2 * t) = 2 ^ (p + 1) * t :
 theorem pdepLoop_inv (mb : List Bool) : ∀ (fuel x p j result : Nat),
     mb.length + p = 64 → j ≤ p → result < 2 ^ p → Bits.popcount mb < fuel →
     pdepLoop fuel x (2 ^ p * Bits.toNat mb) (2 ^ j % 2 ^ 64) result
-      = result + 2 ^ p * Bits.toNat (deposit mb (Bits.ofNat (64 - j) (x / 2 ^ j)) false) := by
+      = some (result + 2 ^ p * Bits.toNat (deposit mb (Bits.ofNat (64 - j) (x / 2 ^ j)) false)) := by
   induction mb with
   | nil =>
     intro fuel x p j result _ _ _ hf
     cases fuel with
-    | zero => simp [pdepLoop, deposit, Bits.toNat]
+    | zero => simp [Bits.popcount] at hf
     | succ f => simp [pdepLoop, deposit, Bits.toNat]
   | cons b mb ih =>
     intro fuel x p j result hl hj hr hf
@@ -164,7 +164,7 @@ theorem pdepLoop_inv (mb : List Bool) : ∀ (fuel x p j result : Nat),
           rw [ih f x (p + 1) (j + 1) (result + 2 ^ p) (by simp at hl; omega) (by omega) hr'
             (by omega)]
           simp only [hbit, beq_self_eq_true, if_true]
-          rw [two_pow_mul_cons_true]; omega
+          rw [two_pow_mul_cons_true, Option.some.injEq]; omega
         · have hne : ¬ (x &&& 2 ^ j ≠ 0) := fun h => hbit ((and_two_pow_ne_zero x j).1 h)
           rw [if_neg hne]
           have hr' : result < 2 ^ (p + 1) := by rw [Nat.pow_succ]; omega
@@ -172,7 +172,7 @@ theorem pdepLoop_inv (mb : List Bool) : ∀ (fuel x p j result : Nat),
           have hb : (x / 2 ^ j % 2 == 1) = false := by simp [hbit]
           simp only [hb, Bool.false_eq_true, if_false, Nat.zero_add, two_pow_mul_cons_false]
 
-theorem pdepGo_eq_pdep (x mask : Nat) (hm : mask < 2 ^ 64) : pdepGo x mask = pdep x mask := by
+theorem pdepGo_eq_pdep (x mask : Nat) (hm : mask < 2 ^ 64) : pdepGo x mask = some (pdep x mask) := by
   have h := pdepLoop_inv (Bits.ofNat 64 mask) 65 x 0 0 0 (by simp) (Nat.le_refl 0) (by decide)
     (by have := popcount_le_length (Bits.ofNat 64 mask); simp at this; omega)
   rw [Bits.toNat_ofNat, Nat.mod_eq_of_lt hm] at h
@@ -183,12 +183,12 @@ theorem pdepGo_eq_pdep (x mask : Nat) (hm : mask < 2 ^ 64) : pdepGo x mask = pde
 theorem pextLoop_inv (mb : List Bool) : ∀ (fuel x p j result n : Nat),
     mb.length + p = 64 → j ≤ p → result < 2 ^ j → Bits.popcount mb < fuel → Bits.popcount mb ≤ n →
     pextLoop fuel x (2 ^ p * Bits.toNat mb) (2 ^ j % 2 ^ 64) result
-      = result + 2 ^ j * Bits.toNat (split mb (Bits.ofNat mb.length (x / 2 ^ p)) n).1 := by
+      = some (result + 2 ^ j * Bits.toNat (split mb (Bits.ofNat mb.length (x / 2 ^ p)) n).1) := by
   induction mb with
   | nil =>
     intro fuel x p j result n _ _ _ hf _
     cases fuel with
-    | zero => simp [pextLoop, split, Bits.toNat]
+    | zero => simp [Bits.popcount] at hf
     | succ f => simp [pextLoop, split, Bits.toNat]
   | cons b mb ih =>
     intro fuel x p j result n hl hj hr hf hn
@@ -236,7 +236,7 @@ theorem pextLoop_inv (mb : List Bool) : ∀ (fuel x p j result n : Nat),
           rw [ih f x (p + 1) (j + 1) (result + 2 ^ j) n (by simp at hl; omega) (by omega) hr'
             (by omega) (by omega)]
           simp only [hbit, beq_self_eq_true, if_true]
-          rw [two_pow_mul_cons_true]; omega
+          rw [two_pow_mul_cons_true, Option.some.injEq]; omega
         · have hne : ¬ (x &&& 2 ^ p ≠ 0) := fun h => hbit ((and_two_pow_ne_zero x p).1 h)
           rw [if_neg hne]
           have hr' : result < 2 ^ (j + 1) := by rw [Nat.pow_succ]; omega
@@ -245,7 +245,7 @@ theorem pextLoop_inv (mb : List Bool) : ∀ (fuel x p j result n : Nat),
           have hb : (x / 2 ^ p % 2 == 1) = false := by simp [hbit]
           simp only [hb, Bool.false_eq_true, if_false, Nat.zero_add, two_pow_mul_cons_false]
 
-theorem pextGo_eq_pext (x mask : Nat) (hm : mask < 2 ^ 64) : pextGo x mask = pext x mask := by
+theorem pextGo_eq_pext (x mask : Nat) (hm : mask < 2 ^ 64) : pextGo x mask = some (pext x mask) := by
   have hpc : Bits.popcount (Bits.ofNat 64 mask) ≤ 64 := by
     have := popcount_le_length (Bits.ofNat 64 mask); simpa using this
   have h := pextLoop_inv (Bits.ofNat 64 mask) 65 x 0 0 0 64 (by simp) (Nat.le_refl 0) (by decide)
